@@ -1,218 +1,117 @@
 //! Step harnesses (one recursion step, oracle apply cache) for the simple BDD rules.
 use super::*;
-use oxidd_core::function::{BooleanFunction, BooleanFunctionQuant, BooleanOperator, FunctionSubst};
 use oxidd_rules_bdd::simple::{BDDFunction, BDDOp, BDDTerminal};
 
 pub type B = BDDFunction<KFunc>;
 
-/// number of nodes in the symbolic pre-state (concrete upper bound, symbolic actual number)
-const INIT: usize = N - 1;
+include!("../../common/boolstep.rs");
 
-/// NOTE: the manager must be returned *bare*: wrapping it into another struct
-/// and returning that by value makes CBMC lose the `assume(wf)` facts (probe dbg5).
-pub type Setup = KManager<'static>;
-
-/// arbitrary well-formed diagram with `init <= INIT` nodes, arbitrary node
-/// capacity `cap` in `init ..= N` (every allocation can be the failing one)
-pub fn setup(top_rank: u32) -> Setup {
-    setup_n(top_rank, INIT)
+use BDDOp::*;
+pub const AL_BIN: &[KOp] = &[And, Or, Nand, Nor, Xor, Equiv, Imp, ImpStrict, Not];
+pub const AL_NOT: &[KOp] = &[Not];
+pub const AL_ITE: &[KOp] = &[Ite, And, Or, Imp, ImpStrict, Not];
+pub const AL_RESTRICT: &[KOp] = &[Restrict];
+pub const AL_SUBST: &[KOp] = &[Substitute, Ite, And, Or, Imp, ImpStrict, Not];
+pub fn al_quant(q: Q) -> &'static [KOp] {
+    match q {
+        Q::Forall => &[Forall, And],
+        Q::Exists => &[Exists, Or],
+        Q::Unique => &[Unique, Xor, Not],
+    }
 }
-/// same with at most `max_init` (concrete) pre-existing nodes
-pub fn setup_n(top_rank: u32, max_init: usize) -> Setup {
-    let init: usize = kani::any();
-    kani::assume(init <= max_init);
-    let cap: usize = kani::any();
-    kani::assume(cap >= init && cap <= N);
-    sym::any_manager(init, max_init, cap, KCache::step(top_rank, 0), KExtra::none(), sym::id_order())
-}
-
-/// Post-conditions common to every operation (success or out-of-memory)
-pub fn post(s: &Setup, r: &AllocResult<KEdge>, want: G) {
-    let m = s;
-    assert!(m.wf(), "C01,C03: diagram stays ordered, reduced and duplicate-free");
-    assert!(m.ghost_ok(), "C03: pre-existing nodes are unchanged (semantics of every node preserved)");
-    match r {
-        Ok(e) => {
-            assert!(m.g(e) == want, "C02: result denotes the specified function");
-            // exact reference counting: +1 on the result, 0 everywhere else
-            let exp = if e.id() == m.watch { 1 } else { 0 } + m.new_parent_refs();
-            assert!(m.wrc.get() == exp, "C05: net reference change = +1 for the returned handle + edges stored in newly created nodes, 0 on every other node");
-        }
-        Err(_) => {
-            assert!(m.oom.get(), "C14: out-of-memory is only reported when an allocation actually failed");
-            assert!(m.wrc.get() == m.new_parent_refs(), "C14,C05: a failed operation releases every reference it acquired");
-        }
+pub fn al_apply_quant(q: Q, o: BooleanOperator) -> &'static [KOp] {
+    match (q, o) {
+        (Q::Forall, BooleanOperator::And) => &[BDDOp::ForallAnd, BDDOp::Forall, BDDOp::And, BDDOp::And, BDDOp::Not],
+        (Q::Forall, BooleanOperator::Or) => &[BDDOp::ForallOr, BDDOp::Forall, BDDOp::And, BDDOp::Or, BDDOp::Not],
+        (Q::Forall, BooleanOperator::Nand) => &[BDDOp::ForallNand, BDDOp::Forall, BDDOp::And, BDDOp::Nand, BDDOp::Not],
+        (Q::Forall, BooleanOperator::Nor) => &[BDDOp::ForallNor, BDDOp::Forall, BDDOp::And, BDDOp::Nor, BDDOp::Not],
+        (Q::Forall, BooleanOperator::Xor) => &[BDDOp::ForallXor, BDDOp::Forall, BDDOp::And, BDDOp::Xor, BDDOp::Not],
+        (Q::Forall, BooleanOperator::Equiv) => &[BDDOp::ForallEquiv, BDDOp::Forall, BDDOp::And, BDDOp::Equiv, BDDOp::Not],
+        (Q::Forall, BooleanOperator::Imp) => &[BDDOp::ForallImp, BDDOp::Forall, BDDOp::And, BDDOp::Imp, BDDOp::Not],
+        (Q::Forall, BooleanOperator::ImpStrict) => &[BDDOp::ForallImpStrict, BDDOp::Forall, BDDOp::And, BDDOp::ImpStrict, BDDOp::Not],
+        (Q::Exists, BooleanOperator::And) => &[BDDOp::ExistsAnd, BDDOp::Exists, BDDOp::Or, BDDOp::And, BDDOp::Not],
+        (Q::Exists, BooleanOperator::Or) => &[BDDOp::ExistsOr, BDDOp::Exists, BDDOp::Or, BDDOp::Or, BDDOp::Not],
+        (Q::Exists, BooleanOperator::Nand) => &[BDDOp::ExistsNand, BDDOp::Exists, BDDOp::Or, BDDOp::Nand, BDDOp::Not],
+        (Q::Exists, BooleanOperator::Nor) => &[BDDOp::ExistsNor, BDDOp::Exists, BDDOp::Or, BDDOp::Nor, BDDOp::Not],
+        (Q::Exists, BooleanOperator::Xor) => &[BDDOp::ExistsXor, BDDOp::Exists, BDDOp::Or, BDDOp::Xor, BDDOp::Not],
+        (Q::Exists, BooleanOperator::Equiv) => &[BDDOp::ExistsEquiv, BDDOp::Exists, BDDOp::Or, BDDOp::Equiv, BDDOp::Not],
+        (Q::Exists, BooleanOperator::Imp) => &[BDDOp::ExistsImp, BDDOp::Exists, BDDOp::Or, BDDOp::Imp, BDDOp::Not],
+        (Q::Exists, BooleanOperator::ImpStrict) => &[BDDOp::ExistsImpStrict, BDDOp::Exists, BDDOp::Or, BDDOp::ImpStrict, BDDOp::Not],
+        (Q::Unique, BooleanOperator::And) => &[BDDOp::UniqueAnd, BDDOp::Unique, BDDOp::Xor, BDDOp::And, BDDOp::Not],
+        (Q::Unique, BooleanOperator::Or) => &[BDDOp::UniqueOr, BDDOp::Unique, BDDOp::Xor, BDDOp::Or, BDDOp::Not],
+        (Q::Unique, BooleanOperator::Nand) => &[BDDOp::UniqueNand, BDDOp::Unique, BDDOp::Xor, BDDOp::Nand, BDDOp::Not],
+        (Q::Unique, BooleanOperator::Nor) => &[BDDOp::UniqueNor, BDDOp::Unique, BDDOp::Xor, BDDOp::Nor, BDDOp::Not],
+        (Q::Unique, BooleanOperator::Xor) => &[BDDOp::UniqueXor, BDDOp::Unique, BDDOp::Xor, BDDOp::Xor, BDDOp::Not],
+        (Q::Unique, BooleanOperator::Equiv) => &[BDDOp::UniqueEquiv, BDDOp::Unique, BDDOp::Xor, BDDOp::Equiv, BDDOp::Not],
+        (Q::Unique, BooleanOperator::Imp) => &[BDDOp::UniqueImp, BDDOp::Unique, BDDOp::Xor, BDDOp::Imp, BDDOp::Not],
+        (Q::Unique, BooleanOperator::ImpStrict) => &[BDDOp::UniqueImpStrict, BDDOp::Unique, BDDOp::Xor, BDDOp::ImpStrict, BDDOp::Not],
     }
 }
 
-macro_rules! step_bin {
-    ($name:ident, $f:ident, $op:expr) => {
-        step_bin!($name, $f, $op, 4);
-    };
-    ($name:ident, $f:ident, $op:expr, $mi:expr) => {
-        #[kani::proof]
-        #[kani::unwind(3)]
-        fn $name() {
-            let mut s = setup_n(RANK_BIN, $mi);
-            let f = sym::any_edge(&s, s.init);
-            let g = sym::any_edge(&s, s.init);
-            s.cache.top_level = s.min_level(&[f.borrowed(), g.borrowed()]);
-            let want = bin_spec($op, s.g(&f), s.g(&g));
-            let r = B::$f(&s, &f, &g);
-            post(&s, &r, want);
-            kani::cover!(s.cache.adds.get() > 0 && r.is_ok(), "non-terminal path with cache insertion");
-            kani::cover!(s.cache.hits.get() >= 2, "oracle consulted for both cofactors");
-            kani::cover!(s.created.get() > 0, "node created");
-            kani::cover!(r.is_err(), "out-of-memory path");
-        }
-    };
-}
-step_bin!(step_and, and_edge, BDDOp::And);
-step_bin!(step_or, or_edge, BDDOp::Or);
-step_bin!(step_nand, nand_edge, BDDOp::Nand);
-step_bin!(step_nor, nor_edge, BDDOp::Nor);
-step_bin!(step_xor, xor_edge, BDDOp::Xor);
-step_bin!(step_equiv, equiv_edge, BDDOp::Equiv);
-step_bin!(step_imp, imp_edge, BDDOp::Imp);
-step_bin!(step_imp_strict, imp_strict_edge, BDDOp::ImpStrict);
-step_bin!(step_and_n5, and_edge, BDDOp::And, 5);
-step_bin!(step_or_n5, or_edge, BDDOp::Or, 5);
-step_bin!(step_nand_n5, nand_edge, BDDOp::Nand, 5);
-step_bin!(step_nor_n5, nor_edge, BDDOp::Nor, 5);
-step_bin!(step_xor_n5, xor_edge, BDDOp::Xor, 5);
-step_bin!(step_equiv_n5, equiv_edge, BDDOp::Equiv, 5);
-step_bin!(step_imp_n5, imp_edge, BDDOp::Imp, 5);
-step_bin!(step_imp_strict_n5, imp_strict_edge, BDDOp::ImpStrict, 5);
 
+step_bin_all!(4,
+    step_and, and_edge, |a, b| a & b;
+    step_or, or_edge, |a, b| a | b;
+    step_nand, nand_edge, |a, b| !(a & b);
+    step_nor, nor_edge, |a, b| !(a | b);
+    step_xor, xor_edge, |a, b| a ^ b;
+    step_equiv, equiv_edge, |a, b| !(a ^ b);
+    step_imp, imp_edge, |a, b| !a | b;
+    step_imp_strict, imp_strict_edge, |a, b| !a & b;
+);
+step_bin_all!(5,
+    step_and_n5, and_edge, |a, b| a & b;
+    step_or_n5, or_edge, |a, b| a | b;
+    step_nand_n5, nand_edge, |a, b| !(a & b);
+    step_nor_n5, nor_edge, |a, b| !(a | b);
+    step_xor_n5, xor_edge, |a, b| a ^ b;
+    step_equiv_n5, equiv_edge, |a, b| !(a ^ b);
+    step_imp_n5, imp_edge, |a, b| !a | b;
+    step_imp_strict_n5, imp_strict_edge, |a, b| !a & b;
+);
+step_not!(step_not, 5);
+step_ite!(step_ite, 3);
+step_ite!(step_ite_n4, 4);
+step_restrict!(step_restrict, 4, 2, 4);
+step_restrict!(step_restrict_l3, 4, 3, 5);
+step_quant!(step_forall, forall_edge, Q::Forall, 4);
+step_quant!(step_exists, exists_edge, Q::Exists, 4);
+step_quant!(step_unique, unique_edge, Q::Unique, 4);
+step_quant!(step_forall_n5, forall_edge, Q::Forall, 5);
+step_quant!(step_exists_n5, exists_edge, Q::Exists, 5);
+step_quant!(step_unique_n5, unique_edge, Q::Unique, 5);
+step_apply_quant_8!(apply_forall_edge, Q::Forall, 3, step_apply_forall_and, step_apply_forall_or, step_apply_forall_nand,
+    step_apply_forall_nor, step_apply_forall_xor, step_apply_forall_equiv, step_apply_forall_imp, step_apply_forall_imp_strict);
+step_apply_quant_8!(apply_exists_edge, Q::Exists, 3, step_apply_exists_and, step_apply_exists_or, step_apply_exists_nand,
+    step_apply_exists_nor, step_apply_exists_xor, step_apply_exists_equiv, step_apply_exists_imp, step_apply_exists_imp_strict);
+step_apply_quant_8!(apply_unique_edge, Q::Unique, 3, step_apply_unique_and, step_apply_unique_or, step_apply_unique_nand,
+    step_apply_unique_nor, step_apply_unique_xor, step_apply_unique_equiv, step_apply_unique_imp, step_apply_unique_imp_strict);
+lemma_canonical!(lemma_canonical);
+step_substitute!(step_substitute_v0, 3, 1, 0, 0);
+
+
+// ---------------------------------------------------------------- C13 cube picking
+include!("../../common/pickcube.rs");
+fn mk_pick(mi: usize) -> Setup {
+    setup_n(0, mi, &[])
+}
+fn any_edge_pick(s: &Setup) -> KEdge {
+    sym::any_edge(s, s.init_c.get())
+}
+pick_cube_harnesses!(mk_pick, any_edge_pick);
+
+/// CBMC pitfall regression probe: a node's first child read through a reference, symbolic node index
 #[kani::proof]
 #[kani::unwind(3)]
-fn step_not() {
-    let mut s = setup(RANK_NOT);
-    let f = sym::any_edge(&s, s.init);
-    s.cache.top_level = s.min_level(&[f.borrowed()]);
-    let want = !s.g(&f);
-    let r = B::not_edge(&s, &f);
-    post(&s, &r, want);
-    kani::cover!(s.cache.adds.get() > 0 && r.is_ok(), "non-terminal path with cache insertion");
-    kani::cover!(s.created.get() > 0, "node created");
-    kani::cover!(r.is_err(), "out-of-memory path");
-}
-
-fn covers(s: &Setup, r: &AllocResult<KEdge>) {
-    kani::cover!(s.cache.adds.get() > 0 && r.is_ok(), "non-terminal path with cache insertion");
-    kani::cover!(s.cache.hits.get() >= 2, "oracle consulted at least twice");
-    kani::cover!(s.created.get() > 0, "node created");
-    kani::cover!(r.is_err(), "out-of-memory path");
-}
-
-// ---------------------------------------------------------------- ITE
-#[kani::proof]
-#[kani::unwind(3)]
-fn step_ite() {
-    let mut s = setup_n(RANK_ITE, 4);
-    let f = sym::any_edge(&s, s.init);
-    let g = sym::any_edge(&s, s.init);
-    let h = sym::any_edge(&s, s.init);
-    s.cache.top_level = s.min_level(&[f.borrowed(), g.borrowed(), h.borrowed()]);
-    let (a, b, c) = (s.g(&f), s.g(&g), s.g(&h));
-    let r = B::ite_edge(&s, &f, &g, &h);
-    post(&s, &r, (a & b) | (!a & c));
-    covers(&s, &r);
-}
-
-// ---------------------------------------------------------------- restrict / quantification
-#[kani::proof]
-#[kani::unwind(6)]
-fn step_restrict() {
-    let mut s = setup(RANK_RESTRICT);
-    let f = sym::any_edge(&s, s.init);
-    let v = sym::any_edge(&s, s.init);
-    kani::assume(is_cube(s.g(&v)) && s.g(&v) != 0);
-    s.cache.top_level = s.min_level(&[f.borrowed()]);
-    let want = restrict_spec(s.g(&f), s.g(&v));
-    let r = B::restrict_edge(&s, &f, &v);
-    post(&s, &r, want);
-    covers(&s, &r);
-}
-
-macro_rules! step_quant {
-    ($name:ident, $f:ident, $q:expr) => {
-        #[kani::proof]
-        #[kani::unwind(6)]
-        fn $name() {
-            let mut s = setup(RANK_QUANT);
-            let f = sym::any_edge(&s, s.init);
-            let v = sym::any_edge(&s, s.init);
-            kani::assume(is_pos_cube(s.g(&v)) && s.g(&v) != 0);
-            s.cache.top_level = s.min_level(&[f.borrowed()]);
-            let want = quant_spec($q, s.g(&f), s.g(&v));
-            let r = B::$f(&s, &f, &v);
-            post(&s, &r, want);
-            covers(&s, &r);
-        }
-    };
-}
-step_quant!(step_forall, forall_edge, BDDOp::Forall);
-step_quant!(step_exists, exists_edge, BDDOp::Exists);
-step_quant!(step_unique, unique_edge, BDDOp::Unique);
-
-macro_rules! step_apply_quant {
-    ($name:ident, $f:ident, $q:expr, $bop:expr, $op:expr) => {
-        #[kani::proof]
-        #[kani::unwind(6)]
-        fn $name() {
-            let mut s = setup_n(RANK_APPLY_QUANT, 4);
-            let f = sym::any_edge(&s, s.init);
-            let g = sym::any_edge(&s, s.init);
-            let v = sym::any_edge(&s, s.init);
-            kani::assume(is_pos_cube(s.g(&v)) && s.g(&v) != 0);
-            s.cache.top_level = s.min_level(&[f.borrowed(), g.borrowed()]);
-            let want = quant_spec($q, bin_spec($op, s.g(&f), s.g(&g)), s.g(&v));
-            let r = B::$f(&s, $bop, &f, &g, &v);
-            post(&s, &r, want);
-            covers(&s, &r);
-        }
-    };
-}
-// (no `paste` crate offline: spell the 24 harnesses out)
-step_apply_quant!(step_apply_forall_and, apply_forall_edge, BDDOp::Forall, BooleanOperator::And, BDDOp::And);
-step_apply_quant!(step_apply_forall_or, apply_forall_edge, BDDOp::Forall, BooleanOperator::Or, BDDOp::Or);
-step_apply_quant!(step_apply_forall_nand, apply_forall_edge, BDDOp::Forall, BooleanOperator::Nand, BDDOp::Nand);
-step_apply_quant!(step_apply_forall_nor, apply_forall_edge, BDDOp::Forall, BooleanOperator::Nor, BDDOp::Nor);
-step_apply_quant!(step_apply_forall_xor, apply_forall_edge, BDDOp::Forall, BooleanOperator::Xor, BDDOp::Xor);
-step_apply_quant!(step_apply_forall_equiv, apply_forall_edge, BDDOp::Forall, BooleanOperator::Equiv, BDDOp::Equiv);
-step_apply_quant!(step_apply_forall_imp, apply_forall_edge, BDDOp::Forall, BooleanOperator::Imp, BDDOp::Imp);
-step_apply_quant!(step_apply_forall_imp_strict, apply_forall_edge, BDDOp::Forall, BooleanOperator::ImpStrict, BDDOp::ImpStrict);
-step_apply_quant!(step_apply_exists_and, apply_exists_edge, BDDOp::Exists, BooleanOperator::And, BDDOp::And);
-step_apply_quant!(step_apply_exists_or, apply_exists_edge, BDDOp::Exists, BooleanOperator::Or, BDDOp::Or);
-step_apply_quant!(step_apply_exists_nand, apply_exists_edge, BDDOp::Exists, BooleanOperator::Nand, BDDOp::Nand);
-step_apply_quant!(step_apply_exists_nor, apply_exists_edge, BDDOp::Exists, BooleanOperator::Nor, BDDOp::Nor);
-step_apply_quant!(step_apply_exists_xor, apply_exists_edge, BDDOp::Exists, BooleanOperator::Xor, BDDOp::Xor);
-step_apply_quant!(step_apply_exists_equiv, apply_exists_edge, BDDOp::Exists, BooleanOperator::Equiv, BDDOp::Equiv);
-step_apply_quant!(step_apply_exists_imp, apply_exists_edge, BDDOp::Exists, BooleanOperator::Imp, BDDOp::Imp);
-step_apply_quant!(step_apply_exists_imp_strict, apply_exists_edge, BDDOp::Exists, BooleanOperator::ImpStrict, BDDOp::ImpStrict);
-step_apply_quant!(step_apply_unique_and, apply_unique_edge, BDDOp::Unique, BooleanOperator::And, BDDOp::And);
-step_apply_quant!(step_apply_unique_or, apply_unique_edge, BDDOp::Unique, BooleanOperator::Or, BDDOp::Or);
-step_apply_quant!(step_apply_unique_nand, apply_unique_edge, BDDOp::Unique, BooleanOperator::Nand, BDDOp::Nand);
-step_apply_quant!(step_apply_unique_nor, apply_unique_edge, BDDOp::Unique, BooleanOperator::Nor, BDDOp::Nor);
-step_apply_quant!(step_apply_unique_xor, apply_unique_edge, BDDOp::Unique, BooleanOperator::Xor, BDDOp::Xor);
-step_apply_quant!(step_apply_unique_equiv, apply_unique_edge, BDDOp::Unique, BooleanOperator::Equiv, BDDOp::Equiv);
-step_apply_quant!(step_apply_unique_imp, apply_unique_edge, BDDOp::Unique, BooleanOperator::Imp, BDDOp::Imp);
-step_apply_quant!(step_apply_unique_imp_strict, apply_unique_edge, BDDOp::Unique, BooleanOperator::ImpStrict, BDDOp::ImpStrict);
-
-// ---------------------------------------------------------------- C01(a): canonicity lemma
-/// For every well-formed diagram: distinct nodes denote distinct, non-constant
-/// functions; hence two edges are equal iff they denote the same function.
-#[kani::proof]
-#[kani::unwind(3)]
-fn lemma_canonical() {
-    let init: usize = kani::any();
-    kani::assume(init <= INIT);
-    let m = sym::any_manager_opt(init, INIT, N, KCache::miss(), KExtra::none(), sym::id_order(), false);
-    assert!(m.ghost_distinct(init), "C01: reduced + ordered + unique implies distinct nodes denote distinct non-constant functions");
-    let e1 = sym::any_edge(&m, init);
-    let e2 = sym::any_edge(&m, init);
-    assert!((m.g(&e1) == m.g(&e2)) == (e1 == e2), "C01: handles compare equal iff they denote the same function");
-    assert!((e1 == e2) == (e1.cmp(&e2) == std::cmp::Ordering::Equal), "C01: edge ordering is consistent with equality");
-    kani::cover!(init == INIT && e1 != e2, "full diagram, distinct edges");
+fn probe_child0_by_ref() {
+    let s = mk_pick(4);
+    let i: usize = kani::any();
+    kani::assume(i < s.init_c.get());
+    let n = s.node(i);
+    use oxidd_core::InnerNode;
+    let c = n.child(0);
+    assert!(((c.0 & !TAG_BIT) as usize) < NTERM + s.init_c.get(), "HARNESS: first child read through a reference agrees with the assumed well-formedness");
+    assert!(s.wf_node(i), "HARNESS: well-formedness of a symbolically indexed node follows from the assumption");
+    kani::cover!(s.init_c.get() == 2, "init 2 reachable");
+    kani::cover!(s.init_c.get() == 4, "init 4 reachable");
 }
